@@ -76,9 +76,8 @@ Lemma pw_step s e : e <> ETick -> pw (fst (step s e)) = pw s.
 Proof.
   intros Hne. destruct e; try congruence; unfold step; cbn [fst]; try reflexivity.
   - unfold do_apply.
-    destruct ((match slot with Some b => b | None => putlocks (with_sigs s []) end) &&
-              (LaxSem.value (sem (with_sigs s [])) =? 0)); [reflexivity|].
-    destruct (negb (pstate (with_sigs s []) =? 0)); [reflexivity|]. cbn [fst].
+    destruct (negb (pstate (with_sigs s []) =? 0)); [reflexivity|].
+    destruct ((match slot with Some b => b | None => putlocks (with_sigs s []) end) && (LaxSem.value (sem (with_sigs s [])) =? 0)); [reflexivity|]. cbn [fst].
     destruct (match slot with Some b => b | None => putlocks (with_sigs s []) end); reflexivity.
   - unfold do_map. destruct (negb (pstate (with_sigs s []) =? 0)); reflexivity.
   - unfold do_imap. destruct (negb (pstate (with_sigs s []) =? 0)); reflexivity.
